@@ -754,3 +754,87 @@ func rulePathPrefixBoundary(c *Ctx, r *Report) {
 		})
 	}
 }
+
+// ---- R-CREATE-ON-MISS (C10, C13, C31) ----------------------------------------------------------
+
+// ruleCreateOnMiss: under modifyRoot the list walkers create the addressed entry when it does not
+// exist. "Does not exist" must mean "no entry matched the keys", not "the traversal below the
+// entries produced no nodes": a matched entry can produce none (the rest of the path is skipped,
+// e.g. unknown to the schema under IgnoreExtraFields), and re-creating it replaces it.
+func ruleCreateOnMiss(c *Ctx, r *Report) {
+	r.Rule("R-CREATE-ON-MISS", "in retrieveNodeList (multi-key branch) and retrieveNodeOrderedList the creation of a new entry is guarded by the negation of a flag that is set where an entry matched the path's keys; an emptiness test of the collected nodes alone re-creates (and thereby wipes) an entry whose subtree was traversed without result", 2)
+	for _, w := range []struct{ fn, creator string }{
+		{"retrieveNodeList", P("ytypes") + ".insertAndGetKey"},
+		{"retrieveNodeOrderedList", ""},
+	} {
+		f := c.MustFunc(r, "ytypes", w.fn)
+		if f == nil {
+			continue
+		}
+		info := f.Info()
+		// creation sites
+		var sites []*ast.CallExpr
+		ast.Inspect(f.Decl.Body, func(x ast.Node) bool {
+			call, ok := x.(*ast.CallExpr)
+			if !ok {
+				return true
+			}
+			if w.creator != "" && FullName(Callee(info, call)) == w.creator {
+				sites = append(sites, call)
+			}
+			if w.creator == "" && FullName(Callee(info, call)) == P("internal/yreflect")+".MethodByName" && len(call.Args) == 2 {
+				if v, isC := ConstOf(info, call.Args[1]); isC && v == `"AppendNew"` {
+					sites = append(sites, call)
+				}
+			}
+			return true
+		})
+		// flags set to true inside an `if match {…}`-style arm within a loop / visitor.
+		setInMatchArm := func(obj types.Object) bool {
+			found := false
+			ast.Inspect(f.Decl.Body, func(x ast.Node) bool {
+				is, ok := x.(*ast.IfStmt)
+				if !ok {
+					return true
+				}
+				if _, isID := ast.Unparen(is.Cond).(*ast.Ident); !isID {
+					return true
+				}
+				for _, st := range is.Body.List {
+					if as, ok := st.(*ast.AssignStmt); ok && len(as.Lhs) == 1 && ObjOf(info, as.Lhs[0]) == obj && constName(info, as.Rhs[0]) == "true" {
+						found = true
+					}
+				}
+				return true
+			})
+			return found
+		}
+		n := 0
+		for _, call := range sites {
+			facts := c.FactsAt(f, call, false)
+			underModify := false
+			for _, ft := range facts {
+				if ft.Kind == "cond" && ft.Pos && strings.HasSuffix(types.ExprString(ft.Cond), ".modifyRoot") {
+					underModify = true
+				}
+			}
+			if !underModify {
+				continue // the single-key branch creates under its own exact lookup
+			}
+			n++
+			guarded := false
+			for _, ft := range facts {
+				if ft.Kind == "cond" && !ft.Pos {
+					if obj := ObjOf(info, ft.Cond); obj != nil && setInMatchArm(obj) {
+						guarded = true
+					}
+				}
+			}
+			r.Check(guarded, fmt.Sprintf("ytypes.%s:create#%d", w.fn, n), c.Pos(call.Pos()), "creation guarded by the matched-entry flag",
+				w.fn+" creates a new list entry whenever the traversal collected no nodes: an existing entry whose subtree yields none (a path the schema does not know, skipped under IgnoreExtraFields) is replaced by a keys-only entry, or the update fails with a duplicate key")
+		}
+		if n == 0 {
+			r.Und("ytypes."+w.fn+":create", c.Pos(f.Decl.Pos()), "no creation site under modifyRoot found")
+		}
+	}
+}
